@@ -62,6 +62,8 @@ Record case := mkCase {
   view : list peer;                                  (* connected peers, their scripts and times *)
   deadline : N;
   on_real : bool;                                    (* class real-stream: the streams were libp2p's *)
+  inconclusive : bool;                               (* the run says nothing about SendBid (slow machine,
+                                                        environment): kept for the statistics only *)
   o_ret : N;
   o_contacted : list (bytes * list bid);             (* per NewStream call: peer, messages written *)
   o_delivered : list (N * commitment);               (* (step, value) received on the channel *)
@@ -88,7 +90,10 @@ Definition oracle_complete (c : case) : bool :=
    stream.ReadMsg select on ctx.Done().  (In the final select the driver's schedules never make
    both cases ready, see class reply-at-deadline for the one that does.) *)
 Definition repo_transport : transport :=
-  mkTransport c05_newstream_ctx c05_write_ctx c05_read_ctx false.
+  mkTransport c05_newstream_ctx
+              (c05_write_ctx && c05_write_ctx_err && c05_write_async)   (* blocking write on a helper   *)
+              (c05_read_ctx && c05_read_ctx_err && c05_read_async)      (* goroutine, select on         *)
+              false.                                                    (* ctx.Done() answering ctx.Err() *)
 
 (* the scripted streams of the driver always watch the context *)
 Definition transport_of (c : case) : transport := if on_real c then repo_transport else ctx_transport.
@@ -109,7 +114,7 @@ Definition agrees (c : case) : bool :=
   end.
 
 Definition mismatches (cs : list case) : list N :=
-  map id (filter (fun c => negb (oracle_complete c && agrees c)) cs).
+  map id (filter (fun c => negb (inconclusive c) && negb (oracle_complete c && agrees c)) cs).
 
 (* --- the property, evaluated on the implementation's own observation --------------------- *)
 (* Nothing below looks at the model's prediction: only at the input of the case (who was
@@ -159,7 +164,7 @@ Definition check_run (vf : commitment -> outcome bytes) (sent : bid) (provs : li
 (* A question to the signer that the driver did not record is a defect of the driver: it is
    reported as a broken correspondence ([mismatches]), never as a verdict on the implementation. *)
 Definition violation_keys (c : case) : list string :=
-  if negb (oracle_complete c) then [] else
+  if inconclusive c || negb (oracle_complete c) then [] else
   let provs := get_peers TProvider (view c) in
   match construct_of (csb c) (args c), provs with
   | Ok sent, _ :: _ =>
@@ -179,7 +184,7 @@ Definition violations (cs : list case) : list (N * string) :=
 (* cases that exercise the property non-vacuously: a channel is owed and at least one provider's
    frame arrives before the deadline *)
 Definition nontrivial (cs : list case) : list N :=
-  map id (filter (fun c =>
+  map id (filter (fun c => negb (inconclusive c) &&
     match construct_of (csb c) (args c) with
     | Ok _ => negb (Nat.eqb (length (candidates (deadline c) (get_peers TProvider (view c)))) 0)
     | _ => false
